@@ -27,6 +27,7 @@ TEXT = {
  "C01": ("Lean theorems: for all six kinds MarshalCBOR's output is decoded back to the same wire array (tag/prefix stripping proved); protected, payload/ciphertext and signature/tag come back byte for byte; "
          "a COSE_Sign1 / COSE_Mac0 produced with default headers verifies under any verifier correct for the signer and yields the original payload, for every payload, external data, key and every unprotected map "
          "with scalar / list values in whatever order Go presents its entries (the decoded unprotected map answers every look-up with the decoded form of the original value); "
+         "typed payloads (claims maps, keys) come back answering every look-up as the original, and a CWT produced this way is validated exactly like the original claims for every validator configuration (CwtEndToEnd); "
          "a COSE_Encrypt0 produced with default protected header decrypts to the original payload for every payload, external data, unprotected map and nonce choice (caller IV, Partial IV + Base IV, library-drawn nonce), with no cryptographic hypothesis for the three AEAD models (C12 round-trip theorems). "
          "The model is tied to the library by byte-exact produce + consume correspondence over 6 kinds x 24 algorithms x 3 tag forms",
          "signature correctness assumed (cross-checked by Lean ECDSA/Ed25519); caller-supplied protected maps, nested-map header values, typed payloads, Sign/Mac/Encrypt with recipients by correspondence only", T, "7.1"),
